@@ -222,6 +222,7 @@ def hyp_run(
     n: int,
     shrink: bool = True,
     case_of: Callable[[Any], Any] | None = None,
+    skip_first: bool = False,
 ) -> None:
     """Runs `body(case)` on `n` generated cases. body returns (nontrivial, classes[, trace]) or raises
     Violation; it may return a dict to be merged into the case for replay (key 'replay'). The first violation
@@ -230,6 +231,11 @@ def hyp_run(
     from hypothesis import HealthCheck, Phase, given, settings
 
     last: dict[str, Any] = {}
+    seen = [0]
+    if skip_first:
+        # the first example Hypothesis generates is the simplest one its strategy can produce, whatever the seed: with a handful of
+        # expensive executions per shard (real clusters) every shard would spend one of them on the same trivial case
+        n += 1
 
     phases = [Phase.explicit, Phase.generate] + ([Phase.shrink] if shrink else [])
 
@@ -246,6 +252,9 @@ def hyp_run(
     @given(strategy)
     def _t(case):
         holder: dict[str, Any] = {}
+        seen[0] += 1
+        if skip_first and seen[0] == 1:
+            return
         try:
             r = body(case, holder) if _wants_holder(body) else body(case)
         except Violation as v:
@@ -350,6 +359,48 @@ def _shard_entry(args, conn=None):
     sys.stdout.flush()
     sys.stderr.flush()
     os._exit(0)  # do not wait for stray threads of the code under test
+
+
+def run_isolated(fn, *args, timeout_s: float = 900.0) -> tuple[str, str, str]:
+    """Runs fn(*args) in a forked child. Returns ("ok", "", "") | ("violation", message, clause) | ("error", traceback, "")."""
+    import multiprocessing as mp
+
+    ctx = mp.get_context("fork")
+    pr, pw = ctx.Pipe(duplex=False)
+
+    def child():
+        try:
+            fn(*args)
+            res = ("ok", "", "")
+        except Violation as v:
+            res = ("violation", str(v), v.clause)
+        except BaseException:  # noqa: BLE001
+            res = ("error", traceback.format_exc(), "")
+        try:
+            pw.send(res)
+            pw.close()
+        finally:
+            sys.stdout.flush()
+            sys.stderr.flush()
+            os._exit(0)
+
+    p = ctx.Process(target=child, daemon=False)
+    p.start()
+    pw.close()
+    try:
+        if pr.poll(timeout_s):
+            res = pr.recv()
+        else:
+            res = ("error", f"no result within {timeout_s:.0f}s", "")
+    except EOFError:
+        res = ("error", f"child died without a result (exit code {p.exitcode})", "")
+    finally:
+        if p.is_alive():
+            p.join(10)
+        if p.is_alive():
+            p.kill()
+            p.join(5)
+    return res
 
 
 def run_shards(modname: str, seed: int, cases: int, shards: int, tier: str, budget_s: float | None = None) -> Stats:
